@@ -239,14 +239,15 @@ def behaviour_program(model, view, bindings_path, inv, inspect_padding=True):
                 main.append("      vf_store(addr_of_mut!((*pa).%s), %d, %s);" % (lf.rpath, v, step))
             else:
                 main.append("      (*pa).set_%s(vf_mk(%d));" % (lf.rpath, v))
-        if "Default" in manual.get(tn, set()) and not inspect_padding:
-            main.append("      let _d = <%s as Default>::default();" % tn)
-        if "Default" in manual.get(tn, set()) and inspect_padding:
+        if "Default" in manual.get(tn, set()):
+            # member-wise: every reachable member of the default object is zero (padding cannot be observed after a typed move)
             counts["default_checks"] += 1
-            main.append("      let mut md = std::mem::MaybeUninit::<%s>::uninit(); std::ptr::write_bytes(md.as_mut_ptr() as *mut u8, 0xAA, std::mem::size_of::<%s>());" % (tn, tn))
-            main.append("      md.as_mut_ptr().write(<%s as Default>::default());" % tn)
-            main.append("      let bytes = std::slice::from_raw_parts(md.as_ptr() as *const u8, std::mem::size_of::<%s>());" % tn)
-            main.append('      println!("DEFAULT %s {}", if bytes.iter().all(|b| *b == 0) { "zero".to_string() } else { format!("nonzero {:?}", &bytes[..bytes.len().min(64)]) });' % tn)
+            main.append("      let dflt = <%s as Default>::default(); let pd: *const %s = &dflt;" % (tn, tn))
+            for lf in ok:
+                if lf.bits is None:
+                    main.append('      println!("DEFAULT %s %s {}", vf_show(addr_of!((*pd).%s)));' % (tn, lf.cpath, lf.rpath))
+                else:
+                    main.append('      println!("DEFAULT %s %s {}", vf_showv((*pd).%s()));' % (tn, lf.cpath, lf.rpath))
         if has_eq:
             main.append("      let a: &%s = &*pa;" % tn)
             main.append("      let mut mb = std::mem::MaybeUninit::<%s>::uninit(); std::ptr::copy_nonoverlapping(pa as *const u8, mb.as_mut_ptr() as *mut u8, std::mem::size_of::<%s>());" % (tn, tn))
@@ -345,8 +346,10 @@ def beh_case(chk, i, use_miri=False):
     obs["miri_programs"] = 1 if use_miri else 0
     for line in so.splitlines():
         p = line.split(" ")
-        if p[0] == "DEFAULT" and p[2] != "zero":
-            problems.append("hand-written Default of %s is not all-zero: %s" % (p[1], " ".join(p[2:])[:200]))
+        if p[0] == "DEFAULT":
+            val = p[3] if len(p) > 3 else ""
+            if val.strip("0,fdp") != "" and val not in ("0",):
+                problems.append("hand-written Default of %s: member %s is %s, not zero" % (p[1], p[2], val[:80]))
         elif p[0] == "EQ":
             if p[2] in ("same", "restored") and p[3] != "true":
                 problems.append("PartialEq of %s: two objects with identical members compare unequal (%s)" % (p[1], p[2]))
@@ -368,7 +371,7 @@ def run(chk):
              "Eq/Ord/Hash; pointers, > 32-element arrays and Rust enums => no derived Default; unions and their containers => Copy/Clone only; "
              "user exclusions propagate to containers) and a withheld trait is a violation only if rustc also accepts the derive when it is "
              "added to a copy of the bindings. (2) case = generated graph with --impl-debug/--impl-partialeq/--with-derive-default: a Rust "
-             "program fills objects member by member, then checks that a hand-written Default is all-zero bytes including padding, that == "
+             "program fills objects member by member, then checks that every member of a hand-written Default is zero, that == "
              "is true for identical objects and false after changing exactly one member (each member and bit-field in turn), and that "
              "{:?} does not panic; a sample of the same programs runs under Miri. Non-trivial = >= 2 types / checks.",
         assumptions=["my specification covers the plain-data subset only; disagreements that rustc does not confirm are listed as notes, never verdicts",
